@@ -565,7 +565,7 @@ static Result run_exec(Exec &x,Conn &c,Sched const &sched,std::string const &sch
 	bool hdr_logged = false, gzip = false;
 	size_t body_fed = 0;
 	long last_wire_len = -1, last_wire_raw = 0;
-	bool probed = false;
+	bool probed = false, overrun = false;
 	long quiet = 0;
 	std::vector<char> buf(1<<16);
 	bool finished = res.hang;
@@ -594,7 +594,12 @@ static Result run_exec(Exec &x,Conn &c,Sched const &sched,std::string const &sch
 		if(n < 0 && (errno==EINTR || errno==EAGAIN)) continue;
 		quiet = 0;
 		bool eof = n <= 0;
-		if(eof) { d.on_eof(); res.eof = true; }
+		if(!eof && res.raw_total + n > 4*(x.total_body + 4096) + (1<<20)) {
+			// far more than any framing of this response can need: the server repeats itself - stop reading
+			logline(vt::J().s("e","Overrun").i("raw",res.raw_total + n).str());
+			overrun = true; eof = true;
+		}
+		if(eof) { d.on_eof(); res.eof = !overrun; }
 		else { d.feed(&buf[0],n); res.raw_total += n; }
 		if(d.hdr_done && !hdr_logged) {
 			hdr_logged = true;
@@ -651,7 +656,7 @@ static Result run_exec(Exec &x,Conn &c,Sched const &sched,std::string const &sch
 			logline(vt::J().s("e","Cache").b("present",has).b("same",has && val==d.body).raw("runs",runs_json(cr.runs)).i("len",(long)val.size()).b("gzend",gzend).str());
 		}
 	}
-	res.keep = !res.hang && !res.eof && d.closed && d.expect_keep() && !probed;
+	res.keep = !res.hang && !res.eof && !overrun && d.closed && d.expect_keep() && !probed;
 	if(!res.keep) { close(c.cfd); c.cfd = -1; c.open = false; }
 	flushlog();
 	return res;
